@@ -605,6 +605,12 @@ class ProdProp:
                     if a2 is not None and self.same(a2, b, self.pid == 'C13' and has_inexact_amount(case.specs[pid])):
                         run.stats['diverged_confirmed_slow'] = run.stats.get('diverged_confirmed_slow', 0) + 1
                         continue
+                    if a2 is None or a2 == 'err DIVERGED':
+                        # still no answer within the long budget (nested groups over dense triggers under filters that
+                        # pass a few days of the month take minutes on the real code): a timeout is never a verdict.
+                        # Whether the search ends at all is C16's subject and is judged there.
+                        run.stats['inconclusive_no_answer_in_budget'] = run.stats.get('inconclusive_no_answer_in_budget', 0) + 1
+                        break
                 run.findings.append(Finding(
                     'correspondence',
                     f'producer model and code differ in zone {case.tz} for get_next({dt}) of {prod_sx(case.specs[pid])[:200]}: code {a} / model {b}',
